@@ -22,7 +22,7 @@ RULE = ('sources from vlib.model.gen_file / build_file with scale graphs; non-tr
 ASSUMPTIONS = ['group and channel order of the copy is compared too (defragment writes them in source order)']
 REQUIRED = ['copy_compared_with_model', 'defragment_calls', 'channels_compared', 'props_compared', 'scaled_compared', 'dest:path', 'dest:stream', 'index:on', 'empty_or_untyped_channels',
             'copies_strict_parsed']
-N = {'quick': 2400, 'thorough': 20000}
+N = {'quick': 2400, 'thorough': 600000}
 
 
 def gen_cases(tier, seed):
